@@ -81,12 +81,16 @@ prop("C15", "Integers are decoded exactly or rejected as out of range, never wra
 prop("C17", "Registry names and integers correspond one-to-one with the IANA assignments",
      kani={"quick": ["c17_"], "thorough": ["c17x_"], "timeout": {"quick": 400, "thorough": 1800}, "jobs": 8,
            "pre": "gen_c17"},
+     mirsym={"jobs": _jl("c17"), "budget_s": {"quick": 900, "thorough": 3000}},
      bounds={
          "quick": "all 16 registry enumerations: from_i64/to_i64 over every i64; every row of the independent "
                   "reference table /verif/iana_ref.json (222 rows); is_private over every i64 for the four "
                   "registries with a private range; label classification over every CBOR integer in "
-                  "[-2^64, 2^64-1] for all six label-typed instantiations; text labels ASCII length <= 2",
-         "thorough": "same (the quantification is already over the full integer domain)",
+                  "[-2^64, 2^64-1] for all six label-typed instantiations; text labels ASCII length <= 2; "
+                  "mirsym: the label-typed positions inside containers (alg, crit entries, content type of a "
+                  "header -- standalone and inside the protected / unprotected slot of a COSE_Sign1; kty, key "
+                  "alg, key_ops entries of a key; claim names) over all integers, maps with 1 entry (keys: 2)",
+         "thorough": "same domains (the quantification is already over the full integer domain); maps with 2 (3) entries",
      },
      outside="the reference table is a manual transcription of the IANA registries (no network to re-fetch)",
      assumptions=["reference table /verif/iana_ref.json transcribed independently of coset's source"])
@@ -132,8 +136,10 @@ _STRUCT_BOUNDS = {
              "protected bytes and once as its builder-made twin (retained bytes dropped); external AAD, "
              "detached payload, payload, signature/tag/ciphertext: byte strings of symbolic 64-bit length; "
              "the free structure functions with every context and protected headers from the palette "
-             "{decoded-from-wire, built empty, built alg-only, built kid-only, built one extra parameter}",
-    "thorough": "2 header entries in total, 2 nested structures, depth 5",
+             "{decoded-from-wire, built empty, built alg-only, built kid-only, built one extra parameter}; "
+             "the create / try-create builder helpers after every history of <= 4 builder calls (3 for "
+             "COSE_Sign1 / COSE_Sign / COSE_Recipient; headers from a 2-element palette): the creator receives the RFC structure of the builder's current state",
+    "thorough": "2 header entries in total, 2 nested structures, depth 5; builder histories of <= 4 calls",
 }
 _STRUCT_ASSUME = ["the byte strings handed to the caller's closures are compared as the Value trees the "
                   "serialiser stub recorded: equality of bytes = equality of trees assumes ciborium serialises a "
@@ -199,7 +205,7 @@ prop("C14", "Tagged forms carry exactly the structure's registered CBOR tag",
      mirsym={"jobs": _jl("c14"), "budget_s": {"quick": 900, "thorough": 3000}, "need_both": False},
      bounds={"quick": "all six taggable types; tag numbers: every u64; bodies as in C09's quick bounds with 1 map "
                       "entry in total; untagged decoders of all eight structure types on items that may be tags",
-             "thorough": "bodies with 3 map entries in total"},
+             "thorough": "bodies with 10 array elements in total, text <= 2 bytes, depth 7"},
      outside="tag-head encodings (parser stub)", assumptions=[])
 prop("C20", "Canonicalising a key sorts its encoding and changes nothing else",
      mirsym={"jobs": _jl("c20"), "budget_s": {"quick": 900, "thorough": 3000}, "need_both": False},
